@@ -25,7 +25,7 @@ REQUIRED_COUNTERS = ['b_to_a_decodes', 'a_to_b_decodes', 'messages_with_unknown'
 
 
 def time_limit(tier):
-    return 900 if tier == 'quick' else 5400
+    return common.default_limit(tier)
 
 
 def budget(tier):
